@@ -340,6 +340,10 @@ def bool_contexts():
         'ceq': lambda e: [exit_(bi('=', e, num(1, 'bool')))],
         'cntobs': lambda e: [ass(var('l'), e), putc(var('c')), exit_(var('l'))],
         'cntobsif': lambda e: [iff(e, putc(num(89)), putc(num(78))), exit_(var('c'))],
+        'ifskip': lambda e: [iff(e, skip(), skip()), putc(var('c')), exit_(var('c'))],
+        'ifskipthen': lambda e: [iff(e, skip(), putc(num(78))), exit_(var('c'))],
+        'ifskipelse': lambda e: [iff(e, putc(num(89)), skip()), exit_(var('c'))],
+        'whileskip': lambda e: [ass(var('l'), num(0)), whl(bi('and', bi('<', var('c'), num(3)), e), skip()), exit_(var('c'))],
     }
 
 
